@@ -275,6 +275,7 @@ class World:
             "dct": {"k": o, "j": o2},
             "nested": {"a": [o], "b": {"c": o}},
             "names": list(names),
+            "libname": LIB_NAME,
             "fmts": FmtTable(str),
             "mfmts": FmtTable(Markup),
             "sfmts": FmtTable(MyStr),
@@ -289,9 +290,16 @@ def apply_filter(f, *args):
     return f(*args)
 
 
+LIB_NAME = "lib" + SENT
+LIB_SRC = "libbody" + SENT + "{% macro mac(a=1) %}macval{% endmacro %}{% set pubvar = 'pubval' %}"
+
+
 def make_env(kind, is_async=False, autoescape=False, loader=None, extensions=()):
-    """kind: 'plain' (control), 'sandbox', 'immutable'."""
+    """kind: 'plain' (control), 'sandbox', 'immutable'.  Every environment can import the template LIB_NAME."""
     import jinja2
+
+    if loader is None:
+        loader = jinja2.DictLoader({LIB_NAME: LIB_SRC})
     from jinja2.sandbox import ImmutableSandboxedEnvironment, SandboxedEnvironment
 
     cls = {"plain": jinja2.Environment, "sandbox": SandboxedEnvironment, "immutable": ImmutableSandboxedEnvironment}[kind]
@@ -377,6 +385,11 @@ _ENGINE_RECV = [
     ("", "(ps|batch(1)|first|first)", ""),
     ("", "(ps|sort(attribute='name')|first)", ""),
     ("", "(dct|dictsort|first)[1]", ""),
+    ("{% import '" + LIB_NAME + "' as imod %}", "imod", ""),
+    ("{% import '" + LIB_NAME + "' as imod with context %}", "imod", ""),
+    ("{% import libname as imod %}", "imod", ""),
+    ("{% from '" + LIB_NAME + "' import mac %}", "mac", ""),
+    ("{% from '" + LIB_NAME + "' import mac as mc2 with context %}", "mc2", ""),
     ("", "(o.meth)", ""),
     ("", "(st.upper)", ""),
     ("", "(lst.index)", ""),
@@ -521,7 +534,11 @@ def _joinpath(*parts):
 PRIMS = {}
 
 
+MODULE_EXPRS = ("imod",)  # receivers that are imported template modules: the from-import primitives apply to them
+
+
 def prim(kind, needs_base=False):
+    """needs_base: False = any receiver, True = data receivers only, "module" = imported-module receivers only."""
     def deco(fn):
         PRIMS[fn.__name__] = (fn, kind, needs_base)
         return fn
@@ -562,6 +579,35 @@ def names_loop_sub(R):
 @prim("value")
 def names_loop_attr(R):
     return "{% for n in names %}", "(%s|attr(n))" % R["expr"], "{% endfor %}"
+
+
+def _import_from(R, names_clause, ctx=""):
+    lib = "libname" if R["w"] % 4 == 3 else _q(LIB_NAME)
+    return "{%% from %s import %s%s %%}" % (lib, names_clause, ctx)
+
+
+@prim("value", needs_base="module")
+def from_import_alias(R):
+    return _import_from(R, "%s as imx" % R["name"], ["", " with context", " without context"][R["v"] % 3]), "imx", ""
+
+
+@prim("value", needs_base="module")
+def from_import_alias_list(R):
+    clause = ["mac, %s as imx", "%s as imx, mac", "%s as imx, pubvar as pv", "pubvar, %s as imx, mac as mq", "%s as imx,"][R["v"] % 5] % R["name"]
+    return _import_from(R, clause, ["", " with context"][R["u"] % 2]), "imx", ""
+
+
+@prim("value", needs_base="module")
+def from_import_plain(R):
+    # refused at compile time for underscore names (TemplateAssertionError)
+    return _import_from(R, R["name"]), R["name"], ""
+
+
+@prim("value", needs_base="module")
+def from_import_in_scope(R):
+    pre, suf = [("{% for i in [1] %}", "{% endfor %}"), ("{% macro imm() %}", "{% endmacro %}{{ imm() }}"), ("{% if true %}", "{% endif %}"),
+                ("{% block ibk %}", "{% endblock %}")][R["v"] % 4]
+    return pre + _import_from(R, "%s as imx" % R["name"]), "imx", suf
 
 
 @prim("seq")
@@ -867,12 +913,12 @@ def escape_case(draw):
         ri = draw(st.integers(0, len(P["data"]) - 1))
         recv = ("data", ri)
         pool = P["data"][ri][2]
-        prims = PRIM_NAMES
+        prims = [p for p in PRIM_NAMES if PRIMS[p][2] != "module"]
     else:
         ri = draw(st.integers(0, len(P["engine"]) - 1))
         recv = ("engine", ri)
         pool = P["engine"][ri][3]
-        prims = [p for p in PRIM_NAMES if not PRIMS[p][2]]
+        prims = [p for p in PRIM_NAMES if not PRIMS[p][2] or (PRIMS[p][2] == "module" and P["engine"][ri][1] in MODULE_EXPRS)]
     primname = draw(st.sampled_from(prims))
     if PRIMS[primname][1] == "opaque":
         # a leak into sort/min/max/unique/sum shows only as tracer use: prefer tracer-backed names
@@ -908,9 +954,13 @@ def core_cases():
     for recv, pool in natural:
         for name in pool:
             for primname in PRIM_NAMES:
-                if primname not in ("dot", "sub") and name in thin.get(recv, ()):
+                if primname not in ("dot", "sub") and PRIMS[primname][2] != "module" and name in thin.get(recv, ()):
                     continue
-                if recv[0] == "engine" and PRIMS[primname][2]:
+                flag = PRIMS[primname][2]
+                if flag == "module":
+                    if recv[0] != "engine" or P["engine"][recv[1]][1] not in MODULE_EXPRS:
+                        continue
+                elif recv[0] == "engine" and flag:
                     continue
                 if PRIMS[primname][1] == "opaque" and name not in TRACER_NAMES:
                     continue
@@ -954,6 +1004,10 @@ def structural_violations(code):
     out = []
     tree = ast.parse(code)
     for node in ast.walk(tree):
+        if (isinstance(node, ast.Call) and isinstance(node.func, ast.Name) and node.func.id == "getattr" and len(node.args) >= 2
+                and isinstance(node.args[1], ast.Constant) and isinstance(node.args[1].value, str) and node.args[1].value.startswith("_")):
+            # from-imports compile to getattr(included_template, name, missing): never for a private name
+            out.append("builtin getattr for the private name %r: %s" % (node.args[1].value, ast.unparse(node)[:200]))
         if not isinstance(node, ast.Attribute):
             continue
         r = _root(node.value)
@@ -1141,6 +1195,22 @@ CALLABLES = {
     "mdl.child.save": ("mdl.child.save", "model"),
     "u.listed": ("listed", "model"),
     "cd2.m": ("mdl.save", "model"),
+    # callable objects whose __call__ is decorated with pass_context / pass_eval_context / pass_environment (the engine
+    # calls their bound __call__): marker on the instance, on the class, or rejected by the override's block list
+    "pc_ctx_unsafe": ("pc_ctx_unsafe", "unsafe"),
+    "pc_ctx_class_alters": ("pc_ctx_class_alters", "alters"),
+    "pc_eval_unsafe": ("pc_eval_unsafe", "unsafe"),
+    "pc_eval_class_unsafe": ("pc_eval_class_unsafe", "unsafe"),
+    "pc_env_alters": ("pc_env_alters", "alters"),
+    "pc_env_class_unsafe": ("pc_env_class_unsafe", "unsafe"),
+    "pc_ctx_listed": ("pc_ctx_listed", "model"),
+    "pc_env_listed": ("pc_env_listed", "model"),
+    "pc_ctx_plain": ("pc_ctx_plain", "safe"),
+    "pc_env_plain": ("pc_env_plain", "safe"),
+    "pcd.f": ("pc_ctx_unsafe", "unsafe"),
+    # functions decorated with both a pass_* decorator and a marker
+    "pcfn_ctx_unsafe": ("pcfn_ctx_unsafe", "unsafe"),
+    "pcfn_env_alters": ("pcfn_env_alters", "alters"),
     # safe at their first use, flagged alters_data from then on (the case performs that first use before the call site)
     "late_fn": ("late_fn", "late"),
     "u.late": ("late", "late"),
